@@ -1,2 +1,144 @@
-(* placeholder; replaced below *)
-Require Import CCP.Model.Mac.
+(* C16 — MAC and EUI-64 objects: every rendering denotes the same address.
+   Statements are about Model/Mac.v: an object is its 48-bit (64-bit) value; mac_new / eui_new are the constructors on a
+   str, mac_cisco / mac_dash / mac_colon / mac_unix (eui_cisco / eui_dash / eui_colon) the properties, mac_eq / eui_eq
+   the == of two objects.  The format tables come from the installed macaddress package on every run (gen/TabC16.v).
+
+   Vocabulary (Model/Mac.v, executable):  nibbles k v = the k hex digits of v, most significant first;
+   fill t cs = the format string t with its 'x' places replaced, left to right, by the characters cs;
+   spell t mask v = fill t (digits of v, digit i in upper case iff mask[i]);  spell_lower t v = all digits lower case. *)
+From Coq Require Import NArith List.
+Require Import CCP.Lib.PyStr CCP.Lib.Res CCP.gen.TabC16 CCP.Model.Mac CCP.Proofs.C16Proofs.
+Import ListNotations.
+Open Scope N_scope.
+
+(* the vocabulary means what it says: the digits of v are below 16, there are k of them, and they denote v *)
+Theorem C16_nibbles_are_the_hex_digits : forall k v, v < 16 ^ N.of_nat k ->
+  length (nibbles k v) = k /\ Forall (fun d => d < 16) (nibbles k v) /\ fold_left (fun a d => a * 16 + d) (nibbles k v) 0 = v.
+Proof. intros k v H. exact (conj (nibbles_length k v) (conj (nibbles_lt16 k v) (nibbles_value k v H))). Qed.
+Print Assumptions C16_nibbles_are_the_hex_digits.
+
+(* the formats the library accepts are exactly the four spellings the property names *)
+Theorem C16_formats :
+  tab_eui48_formats = [fmt_dash48; fmt_colon48; fmt_cisco48; fmt_bare48] /\
+  tab_eui64_formats = [fmt_dash64; fmt_colon64; fmt_cisco64; fmt_bare64].
+Proof. exact (conj (proj1 tables48) (proj1 tables64)). Qed.
+Print Assumptions C16_formats.
+
+(* ---------------------------------------------------------------- MACObj *)
+(* every rendering is the lower-case digits of the value in the right grouping (and never raises); no bound on v needed *)
+Theorem C16_mac_render_lower_grouped : forall v,
+  mac_cisco v = Ok (spell_lower fmt_cisco48 v) /\ mac_dash v = Ok (spell_lower fmt_dash48 v) /\
+  mac_colon v = Ok (spell_lower fmt_colon48 v) /\ mac_unix v = Ok (spell_lower fmt_dash48 v).
+Proof. exact mac_render. Qed.
+Print Assumptions C16_mac_render_lower_grouped.
+Example ex_mac_render : mac_cisco 0x001122AAFF01 = Ok [48;48;49;49;46;50;50;97;97;46;102;102;48;49]   (* 0011.22aa.ff01 *)
+                        /\ spell_lower fmt_cisco48 0x001122AAFF01 = [48;48;49;49;46;50;50;97;97;46;102;102;48;49].
+Proof. split; vm_compute; reflexivity. Qed.
+
+(* each rendering re-parses to the same object *)
+Theorem C16_mac_reparse : forall v, v < 2 ^ 48 -> forall r, In r [mac_cisco; mac_dash; mac_colon; mac_unix] ->
+  exists s, r v = Ok s /\ mac_new s = Ok v.
+Proof. exact mac_reparse. Qed.
+Print Assumptions C16_mac_reparse.
+
+(* every accepted spelling (format x per-digit letter case) of every value parses to that value *)
+Theorem C16_mac_parse_any_spelling : forall v t mask,
+  v < 2 ^ 48 -> In t [fmt_dash48; fmt_colon48; fmt_cisco48; fmt_bare48] -> length mask = 12%nat ->
+  mac_new (spell t mask v) = Ok v.
+Proof. exact mac_parse_any_spelling. Qed.
+Print Assumptions C16_mac_parse_any_spelling.
+Example ex_mac_spelling :
+  spell fmt_cisco48 [false;false;false;false;false;false;true;false;false;true;false;false] 0x001122AAFF01
+  = [48;48;49;49;46;50;50;65;97;46;102;70;48;49]                                                          (* 0011.22Aa.fF01 *)
+  /\ mac_new [48;48;49;49;46;50;50;65;97;46;102;70;48;49] = Ok 0x001122AAFF01.
+Proof. split; vm_compute; reflexivity. Qed.
+
+(* nothing else is accepted: an accepted string IS a spelling of the returned value, which is below 2^48 *)
+Theorem C16_mac_parse_sound : forall s v, mac_new s = Ok v ->
+  v < 2 ^ 48 /\ exists t mask, In t [fmt_dash48; fmt_colon48; fmt_cisco48; fmt_bare48] /\ length mask = 12%nat /\ s = spell t mask v.
+Proof. exact mac_parse_sound. Qed.
+Print Assumptions C16_mac_parse_sound.
+Theorem C16_mac_new_total : forall s, (exists v, mac_new s = Ok v) \/ mac_new s = Raise E_ValueError.
+Proof. intros s. apply hw_parse_total. Qed.
+Print Assumptions C16_mac_new_total.
+Theorem C16_mac_reject_wrong_length : forall s, ~ In (length s) [17; 14; 12]%nat -> mac_new s = Raise E_ValueError.
+Proof. exact mac_reject_length. Qed.
+Print Assumptions C16_mac_reject_wrong_length.
+Example ex_mac_reject : mac_new [48;48;49;49;46;50;50;97;97;46;102;102;48;103] = Raise E_ValueError           (* 0011.22aa.ff0g *)
+                        /\ mac_new [48;48;45;49;49;58;50;50;45;97;97;45;102;102;45;48;49] = Raise E_ValueError  (* 00-11:22-aa-ff-01 *)
+                        /\ mac_new [120;120;120;120;46;120;120;120;120;46;120;120;120;120] = Raise E_ValueError (* xxxx.xxxx.xxxx *).
+Proof. repeat split; vm_compute; reflexivity. Qed.
+
+(* two objects are equal iff their values are equal ... *)
+Theorem C16_mac_eq_iff_value : forall a b, a < 2 ^ 48 -> b < 2 ^ 48 ->
+  (mac_eq a b = Ok true <-> a = b) /\ (mac_eq a b = Ok false <-> a <> b).
+Proof.
+  intros a b Ha Hb. rewrite (mac_eq_spec a b Ha Hb). destruct (N.eqb a b) eqn:E.
+  - apply N.eqb_eq in E. split; split; intros H; try reflexivity; try assumption; try discriminate H. contradiction.
+  - apply N.eqb_neq in E. split; split; intros H; try reflexivity; try assumption; try discriminate H. contradiction.
+Qed.
+Print Assumptions C16_mac_eq_iff_value.
+(* ... whatever spelling or letter case they were built from *)
+Theorem C16_mac_eq_any_spelling : forall s1 s2 a b, mac_new s1 = Ok a -> mac_new s2 = Ok b ->
+  (mac_eq a b = Ok true <-> a = b) /\ (mac_eq a b = Ok false <-> a <> b).
+Proof.
+  intros s1 s2 a b H1 H2. apply C16_mac_eq_iff_value; [exact (proj1 (mac_parse_sound s1 a H1)) | exact (proj1 (mac_parse_sound s2 b H2))].
+Qed.
+Print Assumptions C16_mac_eq_any_spelling.
+
+(* ---------------------------------------------------------------- EUI64Obj *)
+Theorem C16_eui64_render_lower_grouped : forall v,
+  eui_cisco v = Ok (spell_lower fmt_cisco64 v) /\ eui_dash v = Ok (spell_lower fmt_dash64 v) /\
+  eui_colon v = Ok (spell_lower fmt_colon64 v).
+Proof. exact eui_render. Qed.
+Print Assumptions C16_eui64_render_lower_grouped.
+Example ex_eui_render : eui_cisco 0x001122AAFF010001 = Ok [48;48;49;49;46;50;50;97;97;46;102;102;48;49;46;48;48;48;49].  (* 0011.22aa.ff01.0001 *)
+Proof. vm_compute. reflexivity. Qed.
+
+Theorem C16_eui64_reparse : forall v, v < 2 ^ 64 -> forall r, In r [eui_cisco; eui_dash; eui_colon] ->
+  exists s, r v = Ok s /\ eui_new s = Ok v.
+Proof. exact eui_reparse. Qed.
+Print Assumptions C16_eui64_reparse.
+
+Theorem C16_eui64_parse_any_spelling : forall v t mask,
+  v < 2 ^ 64 -> In t [fmt_dash64; fmt_colon64; fmt_cisco64; fmt_bare64] -> length mask = 16%nat ->
+  eui_new (spell t mask v) = Ok v.
+Proof. exact eui_parse_any_spelling. Qed.
+Print Assumptions C16_eui64_parse_any_spelling.
+
+Theorem C16_eui64_parse_sound : forall s v, eui_new s = Ok v ->
+  v < 2 ^ 64 /\ exists t mask, In t [fmt_dash64; fmt_colon64; fmt_cisco64; fmt_bare64] /\ length mask = 16%nat /\ s = spell t mask v.
+Proof. exact eui_parse_sound. Qed.
+Print Assumptions C16_eui64_parse_sound.
+Theorem C16_eui64_new_total : forall s, (exists v, eui_new s = Ok v) \/ eui_new s = Raise E_ValueError.
+Proof. intros s. apply hw_parse_total. Qed.
+Print Assumptions C16_eui64_new_total.
+Theorem C16_eui64_reject_wrong_length : forall s, ~ In (length s) [23; 19; 16]%nat -> eui_new s = Raise E_ValueError.
+Proof. exact eui_reject_length. Qed.
+Print Assumptions C16_eui64_reject_wrong_length.
+
+Theorem C16_eui64_eq_iff_value : forall a b, a < 2 ^ 64 -> b < 2 ^ 64 ->
+  (eui_eq a b = Ok true <-> a = b) /\ (eui_eq a b = Ok false <-> a <> b).
+Proof.
+  intros a b Ha Hb. rewrite (eui_eq_spec a b Ha Hb). destruct (N.eqb a b) eqn:E.
+  - apply N.eqb_eq in E. split; split; intros H; try reflexivity; try assumption; try discriminate H. contradiction.
+  - apply N.eqb_neq in E. split; split; intros H; try reflexivity; try assumption; try discriminate H. contradiction.
+Qed.
+Print Assumptions C16_eui64_eq_iff_value.
+Theorem C16_eui64_eq_any_spelling : forall s1 s2 a b, eui_new s1 = Ok a -> eui_new s2 = Ok b ->
+  (eui_eq a b = Ok true <-> a = b) /\ (eui_eq a b = Ok false <-> a <> b).
+Proof.
+  intros s1 s2 a b H1 H2. apply C16_eui64_eq_iff_value; [exact (proj1 (eui_parse_sound s1 a H1)) | exact (proj1 (eui_parse_sound s2 b H2))].
+Qed.
+Print Assumptions C16_eui64_eq_any_spelling.
+
+(* ---------------------------------------------------------------- MACEUISearch (macgrep): a word yields an object exactly when
+   the corresponding constructor accepts it, MAC first *)
+Theorem C16_search_classify : forall w,
+  match classify w with
+  | F_mac v => mac_new w = Ok v
+  | F_eui64 v => eui_new w = Ok v /\ mac_new w = Raise E_ValueError
+  | F_none => mac_new w = Raise E_ValueError /\ eui_new w = Raise E_ValueError
+  end.
+Proof. exact classify_spec. Qed.
+Print Assumptions C16_search_classify.
